@@ -63,7 +63,15 @@ def run(pid, tier, seed, rundir, findings, t0, replay=None):
                 path = write_replay(pid, dict(scn, ops=ops), v["i"], v["tag"], v["finding"])
                 lines.append("VIOLATION property=%s replay=%s clause=%s scenario=%s step=%d" % (pid, path, v["tag"], v["scn"], v["i"]))
     for mv in mcres.get("violations", []):
-        lines.append("VIOLATION property=%s replay=%s clause=%s (bounded model %s)" % (pid, mv["replay"], mv.get("tag", "?"), mv.get("model", "?")))
+        # replay the bounded model's counterexample on the real twin deployments
+        sp = os.path.join(rundir, "mccex.scn.ndjson"); tp = os.path.join(rundir, "mccex.trace.ndjson")
+        open(sp, "w").write(json.dumps(mv["scenario"]) + "\n")
+        harness(["twin", sp, tp])
+        rc, out = java_tlc(SPEC, "Twin.tla", "Twin.cfg", os.path.join(WORK, "tlc_twincex_%d" % os.getpid()), env_extra={"TRACE": tp})
+        real = [v for v in parse_viols(out) if not (findings.get(v["finding"], {}).get("status") == "known")]
+        if not real:
+            raise ToolError("bounded twin model reports %s but the real twin deployments do not reproduce it (specification drift): %s" % (mv["tag"], mv["replay"]))
+        lines.append("VIOLATION property=%s replay=%s clause=%s (bounded model %s, confirmed on the real contracts)" % (pid, mv["replay"], mv.get("tag", "?"), mv.get("model", "?")))
     nev = hits.get("events", 0)
     coverage = dict(states=max(1, mcres["states"] + tstates), transitions=max(1, mcres["transitions"] + nev),
                     mc_states=mcres["states"], mc_transitions=mcres["transitions"], mc_models=mcres["models"],
